@@ -329,6 +329,10 @@ def _construct(cell, elems, ctx):
     names = R.coord_names(sa)
     spellings = [[MOM_NAME[n] if n not in ALT else a for n in names] for a in ("E", "e", "energy", "mass", "M", "m")]
     spellings = [[(s if (n not in ALT or s in ALT[n]) else ALT[n][0]) for n, s in zip(names, sp)] for sp in spellings]
+    # mixed spellings: any subset of the coordinates under its momentum name, the others under the geometric one
+    full = spellings[zlib.crc32(cell["id"].encode()) % len(spellings)]
+    for mask in range(1, 2 ** len(names) - 1):
+        spellings.append([full[j] if (mask >> j) & 1 else names[j] for j in range(len(names))])
     seen = set()
     for sp in spellings:
         if tuple(sp) in seen or sp == list(names):
